@@ -436,7 +436,9 @@ def argreduce_preprocess(array, axis):
         idx,
         dtype=array.dtype,
         meta=array._meta,
-        name="groupby-argreduce-preprocess",
+        # `token` (not `name`): the key must depend on the inputs, two arg-reductions computed
+        # together would otherwise share this layer
+        token="groupby-argreduce-preprocess",
     )
 
 
